@@ -333,16 +333,22 @@ NamespacesHandler::addExtensionNamespaceURI(
 const XalanDOMString*
 NamespacesHandler::getNamespace(const XalanDOMString&   thePrefix) const
 {
-    const NamespacesVectorType::value_type*     theNamespace =
-        findByPrefix(m_excludedResultPrefixes, thePrefix);
+    // The declarations in scope for the element come first.  An excluded
+    // prefix that was inherited from the parent may have been bound to
+    // another namespace by the element.
+    const XalanDOMString* const     theURI =
+        findNamespace(m_namespaceDeclarations, thePrefix);
 
-    if (theNamespace != 0)
+    if (theURI != 0)
     {
-        return &theNamespace->getURI();
+        return theURI;
     }
     else
     {
-        return findNamespace(m_namespaceDeclarations, thePrefix);
+        const NamespacesVectorType::value_type* const   theNamespace =
+            findByPrefix(m_excludedResultPrefixes, thePrefix);
+
+        return theNamespace != 0 ? &theNamespace->getURI() : 0;
     }
 }
 
